@@ -305,7 +305,7 @@ fn seeds_for(e: Endian) -> Vec<Seed> {
             .D16(PROCESSOR_ARCHITECTURE_ARM64 as u16).D16(6).D16(0x0102).D8(4).D8(1)
             .D32(10).D32(0).D32(19041).D32(P::VER_PLATFORM_WIN32_NT as u32)
             .D32(&csd.file_offset()).D16(0x100).D16(0)
-            .D64(0x1234_5678).D64(0xff);
+            .D64(0x1234_5678).D64(0xff).D64(0);
         let mut d = new().add_stream(simple(ST::SystemInfoStream as u32, si)).add(csd);
         d = d.add_stream(simple(0x1234_5678, sec().D32(1).D32(2)));
         d = d.add_stream(simple(ST::CommentStreamA as u32, sec().append_bytes(b"hello\0")));
